@@ -63,8 +63,10 @@ try:
         os.makedirs(d)
         e = dict(env, GORACE="halt_on_error=0 history_size=3 log_path=" + os.path.join(d, "race"),
                  RACE_STATS=os.path.join(d, "rstats.jsonl"), TMPDIR=d)
-        q = subprocess.run([exe, "gen", "-slice", "race", "-n", str(PER), "-seed", str(seed * 1000 + i), "-tier", tier,
-                            "-nocorpus", "-ops", "ops.txt", "-impl", "impl.txt", "-oracle", "oracle.txt", "-stats", "stats.json"],
+        # shard 0 also runs the slice's corpus (the deterministic F14a scenario)
+        q = subprocess.run([exe, "gen", "-slice", "race", "-n", str(PER), "-seed", str(seed * 1000 + i), "-tier", tier] +
+                           ([] if i == 0 else ["-nocorpus"]) + [
+                            "-ops", "ops.txt", "-impl", "impl.txt", "-oracle", "oracle.txt", "-stats", "stats.json"],
                            cwd=d, env=e, stdout=subprocess.PIPE, stderr=subprocess.STDOUT)
         model_ok = None
         if q.returncode in (0, 66) and os.path.exists(drv) and os.path.exists(os.path.join(d, "ops.txt")):
@@ -247,6 +249,8 @@ try:
         else:
             print("EXTRA-FAIL " + txt[:900])
 finally:
+    if os.environ.get("RACE_SOAK_KEEP"):      # keep the raw race-detector logs and op files for inspection
+        shutil.copytree(work, os.environ["RACE_SOAK_KEEP"], dirs_exist_ok=True)
     shutil.rmtree(work, ignore_errors=True)
     for f in (exe, modfile, modfile[:-4] + ".sum"):
         try:
